@@ -42,6 +42,17 @@ def Serial.run (rcOf : Nat → Int) : Serial → List Op → Serial
   | s, [] => s
   | s, op :: ops => Serial.run rcOf (Serial.call rcOf s op) ops
 
+/-! ### "the call returns" -/
+
+/-- `StaysInCall cfg s cs s'`: `cs` is a strict execution (every choice enabled, no spurious wake-up) from `s`
+to `s'` during which the main thread never leaves the API call it is in (every state after `s` is still
+inside the call). -/
+inductive StaysInCall (cfg : Cfg) : State → List Choice → State → Prop where
+  | nil (s : State) : StaysInCall cfg s [] s
+  | cons {s s1 s2 : State} {c : Choice} {cs : List Choice} :
+      stepStrict cfg s c = some s1 → mainInCall s1 = true → StaysInCall cfg s1 cs s2 →
+      StaysInCall cfg s (c :: cs) s2
+
 /-! ### monitors (the clauses of C09 on an observed history) -/
 
 /-- `returned` is a prefix of `submitted` -/
